@@ -228,16 +228,15 @@ class Parser:
         if _maybe_index(stream.current):
             stop = int(stream.current.value)
             stream.next_token()
-            if stream.current.type_ == TokenType.COLON:
-                stream.next_token()
-        elif stream.current.type_ == TokenType.COLON:
-            stream.expect(TokenType.COLON)
+
+        # A step can only follow a second colon.
+        if stream.current.type_ == TokenType.COLON:
             stream.next_token()
 
-        # 1 or ?
-        if _maybe_index(stream.current):
-            step = int(stream.current.value)
-            stream.next_token()
+            # 1 or ?
+            if _maybe_index(stream.current):
+                step = int(stream.current.value)
+                stream.next_token()
 
         stream.push(stream.current)
 
